@@ -2,7 +2,7 @@
 from ..core import Ob
 T = ['matrix', 'vector', 'memwrapper', 'numeric', 'algebra', 'tensor', 'list', 'interpolate', 'metricspace', 'clustering', 'statistic']
 META = dict(
-    functions=['MDC', 'MaxDis_Fast', 'MaxDis (first pick)', 'getLabels', 'getLabels_', 'getCentroids', 'shouldStop', 'UIVectorAppend', 'UIVectorRemoveAt', 'MatrixSort', 'square_to_condensed_index'],
+    functions=['MDC', 'MaxDis_Fast', 'MaxDis (first pick)', 'getLabels', 'getLabels_', 'getCentroids', 'shouldStop (convergence rule: absolute tolerance 1e-3 on every centroid coordinate)', 'UIVectorAppend', 'UIVectorRemoveAt', 'MatrixSort', 'square_to_condensed_index'],
     bounds='MDC: 3..4 objects, 1..n selected, all three metric codes, 1..2 threads, distances havoced; MaxDis_Fast: 3..4 objects, 1..n selected, distances havoced to an arbitrary non-negative symmetric table; first pick of MaxDis and MaxDis_Fast: 3..4 objects x 1..2 variables, all real contents; one k-means step: 3 objects x 1..2 variables, 2 centroids',
     outside='MaxDis (heap-churning per-step distance matrices: no answer in 600 s at 3 objects, measured), agreement of MaxDis with MaxDis_Fast, k-means++ seeding, k-means convergence, sizes above 4',
     stubs=['distance kernels havoced (over-approximation of every metric)', 'sqrt uninterpreted in MaxDis_Fast', 'typed memmove model', 'pthread synchronous'],
@@ -27,6 +27,8 @@ def obligations(tier):
             if not th and n == 4 and s == 4: continue
             obs.append(Ob(id=f'maxdis_fast/n{n}s{s}', harness='C17/selection.c', tus=T, defs={'HP_WHICH': 1, 'HP_N': n, 'HP_S': s, 'HP_METRIC': 1, 'HP_T': 1}, engine='bits', unwind=max(n * (n - 1) // 2, n) + 4, timeout=to,
                           clause='max-min selection: count, distinct, in range, each element maximises the minimum distance', remove=RM1, stubs=('sym_pthread_sync.c', 'memmove_typed.c', 'sym_bits_env.c'), object_bits=11))
+    obs.append(Ob(id='kmeans_convergence_rule', harness='C18/kmeans_cap.c', tus=T, defs={'HP_WHICH': 1}, engine='bits', unwind=6, timeout=300,
+                  clause='k-means stops exactly when no centroid coordinate moved by more than the documented absolute tolerance (labels are nearest up to that tolerance)', stubs=('sym_bits_env.c',)))
     for which, nm in ((0, 'maxdis'), (1, 'maxdis_fast')):
         for (n, c) in ([(3, 1), (3, 2), (4, 1)] if not th else [(3, 1), (3, 2), (4, 1), (4, 2), (5, 1)]):
           for e in range(n):
